@@ -44,7 +44,8 @@ type ResharePlan struct {
 	Join    []int  `json:"join,omitempty"`
 	Leave   []int  `json:"leave,omitempty"`
 	NewT    int    `json:"new_t"`
-	Fail    string `json:"fail,omitempty"` // "", abort, expire, cut_leader
+	Fail    string `json:"fail,omitempty"` // "", abort, expire, exec_partition
+	StopLeavers bool `json:"stop_leavers,omitempty"` // the operators of leaving nodes shut them down just before the transition
 }
 
 type DaemonScenario struct {
@@ -123,6 +124,7 @@ type epochInfo struct {
 	master   kyber.Scalar
 	members  []int
 	complete map[int]bool
+	ttDiffer bool // completers of this epoch computed different transition times
 }
 
 type chainCtx struct {
@@ -152,6 +154,7 @@ type daemonEngine struct {
 	served int
 	oldShares []oldShare
 	crashKind string
+	lastFault time.Time // end of the last fault injected outside the script (by the resharing driver)
 	servedMax map[int]uint64
 }
 
@@ -629,7 +632,14 @@ func (e *daemonEngine) collectEpoch(id string, members []int, epochNo int, old *
 		if ref == nil {
 			ref, refNode = g, i
 		} else if d := groupDiff(ref, g); d != "" {
-			e.rec.Violate("C06", "groups-differ", strings.SplitN(d, ":", 2)[0], "beacon %s epoch %d: node%d and node%d hold different groups: %s", id, epochNo, refNode, i, d)
+			facts := strings.SplitN(d, ":", 2)[0]
+			if facts == "transition_time" && epochNo > 1 && (ref.TransitionTime == ref.GenesisTime || g.TransitionTime == g.GenesisTime) {
+				facts = "transition_time-equals-genesis-after-reshare"
+			}
+			if strings.HasPrefix(facts, "transition_time") {
+				ep.ttDiffer = true
+			}
+			e.rec.Violate("C06", "groups-differ", facts, "beacon %s epoch %d: node%d and node%d hold different groups: %s", id, epochNo, refNode, i, d)
 		}
 		// the share lies on the public polynomial
 		pub := share.NewPubPoly(cc.ref.KeyGroup, cc.ref.KeyGroup.Point().Base(), g.PublicKey.Coefficients)
